@@ -532,7 +532,7 @@ func callSSA(i *interpreter, caller *frame, callpos token.Pos, fn *ssa.Function,
 				return r
 			}
 		}
-		if ext := lookupExternal(name); ext != nil {
+		if ext := lookupExternal(name); ext != nil && !(concreteOnlyExternal[name] && anySymbolic(args)) {
 			if i.mode&EnableTracing != 0 {
 				fmt.Fprintln(os.Stderr, "\t(external)")
 			}
@@ -794,4 +794,27 @@ func Interpret(mainpkg *ssa.Package, mode Mode, sizes types.Sizes, filename stri
 		exitCode = 1
 	}
 	return
+}
+
+// concreteOnlyExternal: externals inherited from go/ssa/interp that handle concrete arguments
+// only; with a symbolic argument the function's Go source is interpreted instead.
+var concreteOnlyExternal = map[string]bool{
+	"strings.Count": true, "strings.EqualFold": true, "strings.Index": true, "strings.IndexByte": true,
+	"bytes.Equal": true, "bytes.IndexByte": true, "strconv.Atoi": true,
+}
+
+func anySymbolic(args []value) bool {
+	for _, a := range args {
+		switch v := a.(type) {
+		case *sym, symstr:
+			return true
+		case []value:
+			for _, e := range v {
+				if _, ok := e.(*sym); ok {
+					return true
+				}
+			}
+		}
+	}
+	return false
 }
